@@ -903,6 +903,136 @@ pub open spec fn lower_ok(ss: Seq<LuaScope>, u: int, b: int, p: int, x: Seq<Scop
     &&& (kd(ss, par(ss, u)) == LuaScopeKind::Repeat && first_scope(ss, par(ss, u)) == u)
             ==> forall|e: ScopeOrDeclId| #[trigger] m_search(ss, u, p).contains(e) ==> x.contains(e)
 }
+/// what the non-entry visit of scope i emits in front of its own children: the body of a repeat statement
+pub open spec fn up_body(ss: Seq<LuaScope>, i: int, p: int) -> Seq<ScopeOrDeclId> {
+    if kd(ss, i) == LuaScopeKind::Repeat && first_scope(ss, i) >= 0 { m_search(ss, first_scope(ss, i), p) } else { Seq::<ScopeOrDeclId>::empty() }
+}
+pub open spec fn up_pre(ss: Seq<LuaScope>, u: int, b: int, p: int, pos: int, x: Seq<ScopeOrDeclId>) -> bool {
+    &&& tree_wf(ss) && chain_step(ss, u, p, pos) && 0 <= par(ss, u) < u && is_scope_child(ss, par(ss, u), b, u)
+    &&& kd(ss, par(ss, u)) != LuaScopeKind::LocalOrAssignStat && ordered(ss, x) && lower_ok(ss, u, b, p, x)
+}
+/// X + (search of the repeat body) is in order
+#[verifier::spinoff_prover]
+pub proof fn lemma_ord_body(ss: Seq<LuaScope>, u: int, b: int, p: int, pos: int, x: Seq<ScopeOrDeclId>)
+    requires up_pre(ss, u, b, p, pos, x)
+    ensures ordered(ss, x + up_body(ss, par(ss, u), p))
+{
+    let i = par(ss, u);
+    let body = first_scope(ss, i);
+    let a_s = up_body(ss, i, p);
+    lemma_beta(ss, i, b);
+    if kd(ss, i) == LuaScopeKind::Repeat {
+        wf_repeat_at(ss, i);
+        lemma_search_ordered(ss, body, p);
+        assert forall|a: int, b1: int| #[trigger] cross_pair(x, a_s, a, b1) by {
+            if 0 <= a < x.len() && 0 <= b1 < a_s.len() && xpos(a_s[b1]) > xpos(x[a]) {
+                assert(a_s.contains(a_s[b1]) && x.contains(x[a]));
+                if b != 0 {
+                    lemma_search_char(ss, body, p, a_s[b1]);
+                    let k = choose|k: int| 0 <= k < kids(ss, body).len() && before(ss, kids(ss, body)[k], p) && child_has(ss, kids(ss, body)[k], a_s[b1]);
+                    lemma_child_has_bounds(ss, body, k, a_s[b1]);
+                    wf_child(ss, body, k);
+                    assert(cend(ss, kids(ss, i)[0]) <= beta(ss, i, b));
+                    assert(false);
+                }
+            }
+        }
+    } else {
+        lemma_ordered_empty(ss);
+        assert forall|a: int, b1: int| #[trigger] cross_pair(x, a_s, a, b1) by {}
+    }
+    lemma_ordered_concat(ss, x, a_s);
+}
+/// ... + (search of scope i) is in order
+#[verifier::spinoff_prover]
+pub proof fn lemma_ord_level(ss: Seq<LuaScope>, u: int, b: int, p: int, pos: int, x: Seq<ScopeOrDeclId>)
+    requires up_pre(ss, u, b, p, pos, x)
+    ensures ordered(ss, x + up_body(ss, par(ss, u), p) + m_search(ss, par(ss, u), p))
+{
+    let i = par(ss, u);
+    let a_s = up_body(ss, i, p);
+    let bs = m_search(ss, i, p);
+    let x1 = x + a_s;
+    lemma_beta(ss, i, b);
+    lemma_inside_parent(ss, u, pos);
+    lemma_ord_body(ss, u, b, p, pos, x);
+    lemma_search_ordered(ss, i, p);
+    if kd(ss, i) == LuaScopeKind::Repeat {
+        lemma_repeat_search_empty(ss, i, p);
+        assert forall|a: int, b1: int| #[trigger] cross_pair(x1, bs, a, b1) by {}
+    } else {
+        assert(x1 =~= x);
+        assert forall|a: int, b1: int| #[trigger] cross_pair(x1, bs, a, b1) by {
+            if 0 <= a < x1.len() && 0 <= b1 < bs.len() && xpos(bs[b1]) > xpos(x1[a]) {
+                let y = bs[b1];
+                assert(bs.contains(y) && x.contains(x1[a]));
+                lemma_search_char(ss, i, p, y);
+                let k = choose|k: int| 0 <= k < kids(ss, i).len() && before(ss, kids(ss, i)[k], p) && child_has(ss, kids(ss, i)[k], y);
+                lemma_child_has_bounds(ss, i, k, y);
+                if k < b {
+                    assert(cend(ss, kids(ss, i)[k]) <= beta(ss, i, b));
+                    assert(false);
+                } else if k > b {
+                    wf_order_at(ss, i, b, k);
+                    assert(false);
+                } else {
+                    assert(child_state(ss, u, p, pos));
+                    assert(func_kind(kd(ss, u)));
+                    let j = choose|j: int| 0 <= j < kids(ss, u).len() && kids(ss, u)[j] == y;
+                    assert(kids(ss, u)[j] is Decl);
+                    assert(x.contains(y));
+                }
+            }
+        }
+    }
+    lemma_ordered_concat(ss, x1, bs);
+}
+/// what was emitted up to and including level i satisfies lower_ok for the step from i to its parent
+#[verifier::spinoff_prover]
+pub proof fn lemma_lower_next(ss: Seq<LuaScope>, u: int, b: int, p: int, pos: int, x: Seq<ScopeOrDeclId>, ki: int)
+    requires up_pre(ss, u, b, p, pos, x), par(ss, u) > 0, 0 <= par(ss, par(ss, u)) < par(ss, u), is_scope_child(ss, par(ss, par(ss, u)), ki, par(ss, u))
+    ensures lower_ok(ss, par(ss, u), ki, p, x + up_body(ss, par(ss, u), p) + m_search(ss, par(ss, u), p))
+{
+    let i = par(ss, u);
+    let body = first_scope(ss, i);
+    let a_s = up_body(ss, i, p);
+    let bs = m_search(ss, i, p);
+    let x1 = x + a_s;
+    let x2 = x1 + bs;
+    lemma_beta(ss, i, b);
+    lemma_beta(ss, par(ss, i), ki);
+    if kd(ss, i) == LuaScopeKind::Repeat { wf_repeat_at(ss, i); }
+    assert forall|e: ScopeOrDeclId| #[trigger] x2.contains(e) implies e is Decl && beta(ss, par(ss, i), ki) <= xpos(e) by {
+        lemma_concat_contains(x1, bs, e);
+        lemma_concat_contains(x, a_s, e);
+        if bs.contains(e) {
+            lemma_search_char(ss, i, p, e);
+            let k = choose|k: int| 0 <= k < kids(ss, i).len() && before(ss, kids(ss, i)[k], p) && child_has(ss, kids(ss, i)[k], e);
+            lemma_child_has_bounds(ss, i, k, e);
+            if kids(ss, i)[k] is Decl { wf_declpos_at(ss, par(ss, i), ki, k); } else { wf_child(ss, i, k); }
+        } else if a_s.contains(e) {
+            lemma_search_char(ss, body, p, e);
+            let k = choose|k: int| 0 <= k < kids(ss, body).len() && before(ss, kids(ss, body)[k], p) && child_has(ss, kids(ss, body)[k], e);
+            lemma_child_has_bounds(ss, body, k, e);
+            wf_child(ss, body, k);
+            wf_child(ss, i, 0);
+        }
+    }
+    if func_kind(kd(ss, i)) {
+        wf_func_at(ss, i);
+        assert(kids(ss, i)[b] is Scope);
+        assert forall|k: int| 0 <= k < kids(ss, i).len() && #[trigger] kids(ss, i)[k] is Decl implies x2.contains(kids(ss, i)[k]) by {
+            let y = kids(ss, i)[k];
+            wf_order_at(ss, i, k, b);
+            assert(before(ss, y, p) && child_has(ss, y, y));
+            lemma_search_char(ss, i, p, y);
+            lemma_concat_contains(x1, bs, y);
+        }
+    }
+    assert forall|e: ScopeOrDeclId| #[trigger] m_search(ss, i, p).contains(e) implies x2.contains(e) by {
+        lemma_concat_contains(x1, bs, e);
+    }
+}
 #[verifier::spinoff_prover]
 pub proof fn lemma_up_ord(ss: Seq<LuaScope>, u: int, b: int, p: int, pos: int, x: Seq<ScopeOrDeclId>)
     requires tree_wf(ss), chain_step(ss, u, p, pos), is_scope_child(ss, par(ss, u), b, u), ordered(ss, x), lower_ok(ss, u, b, p, x)
@@ -923,107 +1053,16 @@ pub proof fn lemma_up_ord(ss: Seq<LuaScope>, u: int, b: int, p: int, pos: int, x
         assert(lower_ok(ss, i, ki, st(ss, i), x));
         lemma_up_ord(ss, i, ki, st(ss, i), pos, x);
     } else {
-        lemma_ctx_from_child(ss, u, b, p, pos);
-        let body = first_scope(ss, i);
-        let a_s = if kd(ss, i) == LuaScopeKind::Repeat && body >= 0 { m_search(ss, body, p) } else { Seq::<ScopeOrDeclId>::empty() };
-        let bs = m_search(ss, i, p);
+        let x2 = x + up_body(ss, i, p) + m_search(ss, i, p);
         let cs = m_up(ss, i, p);
-        // ---- X + (search of the repeat body)
-        if kd(ss, i) == LuaScopeKind::Repeat {
-            wf_repeat_at(ss, i);
-            lemma_search_ordered(ss, body, p);
-            assert forall|a: int, b1: int| #[trigger] cross_pair(x, a_s, a, b1) by {
-                if 0 <= a < x.len() && 0 <= b1 < a_s.len() && xpos(a_s[b1]) > xpos(x[a]) {
-                    assert(a_s.contains(a_s[b1]) && x.contains(x[a]));
-                    if b != 0 {
-                        lemma_search_char(ss, body, p, a_s[b1]);
-                        let k = choose|k: int| 0 <= k < kids(ss, body).len() && before(ss, kids(ss, body)[k], p) && child_has(ss, kids(ss, body)[k], a_s[b1]);
-                        lemma_child_has_bounds(ss, body, k, a_s[b1]);
-                        wf_child(ss, body, k);
-                        assert(cend(ss, kids(ss, i)[0]) <= beta(ss, i, b));
-                        assert(false);
-                    }
-                }
-            }
-        } else {
-            lemma_ordered_empty(ss);
-            assert forall|a: int, b1: int| #[trigger] cross_pair(x, a_s, a, b1) by {}
-        }
-        lemma_ordered_concat(ss, x, a_s);
-        let x1 = x + a_s;
-        // ---- ... + (search of scope i)
-        lemma_search_ordered(ss, i, p);
-        assert forall|a: int, b1: int| #[trigger] cross_pair(x1, bs, a, b1) by {
-            if 0 <= a < x1.len() && 0 <= b1 < bs.len() && xpos(bs[b1]) > xpos(x1[a]) {
-                let y = bs[b1];
-                assert(bs.contains(y) && x1.contains(x1[a]));
-                lemma_concat_contains(x, a_s, x1[a]);
-                lemma_concat_contains(x, a_s, y);
-                lemma_search_char(ss, i, p, y);
-                let k = choose|k: int| 0 <= k < kids(ss, i).len() && before(ss, kids(ss, i)[k], p) && child_has(ss, kids(ss, i)[k], y);
-                lemma_child_has_bounds(ss, i, k, y);
-                if kd(ss, i) == LuaScopeKind::Repeat {
-                    // a repeat scope holds no declarations and no statements
-                    assert(kids(ss, i)[k] is Scope);
-                    wf_child(ss, i, k);
-                    wf_stmt_at(ss, sidx(kids(ss, i)[k]));
-                    assert(false);
-                }
-                assert(a_s.len() == 0);
-                assert(x.contains(x1[a]));
-                if k < b {
-                    assert(cend(ss, kids(ss, i)[k]) <= beta(ss, i, b));
-                    assert(false);
-                } else if k > b {
-                    wf_order_at(ss, i, b, k);
-                    assert(false);
-                } else {
-                    assert(child_state(ss, u, p, pos));
-                    assert(func_kind(kd(ss, u)));
-                    let j = choose|j: int| 0 <= j < kids(ss, u).len() && kids(ss, u)[j] == y;
-                    assert(kids(ss, u)[j] is Decl);
-                    assert(x.contains(y));
-                }
-            }
-        }
-        lemma_ordered_concat(ss, x1, bs);
-        let x2 = x1 + bs;
+        lemma_ord_level(ss, u, b, p, pos, x);
         assert(x + m_up(ss, u, p) =~= x2 + cs);
         if i > 0 {
             let ki = wf_parent(ss, i);
-            lemma_beta(ss, par(ss, i), ki);
             if func_kind(kd(ss, i)) { wf_func_at(ss, i); assert(kids(ss, i)[b] is Scope); }
+            lemma_ctx_from_child(ss, u, b, p, pos);
             assert(chain_step(ss, i, p, pos));
-            // lower_ok for the next level
-            assert forall|e: ScopeOrDeclId| #[trigger] x2.contains(e) implies e is Decl && beta(ss, par(ss, i), ki) <= xpos(e) by {
-                lemma_concat_contains(x1, bs, e);
-                lemma_concat_contains(x, a_s, e);
-                if bs.contains(e) {
-                    lemma_search_char(ss, i, p, e);
-                    let k = choose|k: int| 0 <= k < kids(ss, i).len() && before(ss, kids(ss, i)[k], p) && child_has(ss, kids(ss, i)[k], e);
-                    lemma_child_has_bounds(ss, i, k, e);
-                    if kids(ss, i)[k] is Decl { wf_declpos_at(ss, par(ss, i), ki, k); } else { wf_child(ss, i, k); }
-                } else if a_s.contains(e) {
-                    lemma_search_char(ss, body, p, e);
-                    let k = choose|k: int| 0 <= k < kids(ss, body).len() && before(ss, kids(ss, body)[k], p) && child_has(ss, kids(ss, body)[k], e);
-                    lemma_child_has_bounds(ss, body, k, e);
-                    wf_child(ss, body, k);
-                    wf_child(ss, i, 0);
-                }
-            }
-            if func_kind(kd(ss, i)) {
-                assert forall|k: int| 0 <= k < kids(ss, i).len() && #[trigger] kids(ss, i)[k] is Decl implies x2.contains(kids(ss, i)[k]) by {
-                    let y = kids(ss, i)[k];
-                    wf_order_at(ss, i, k, b);
-                    assert(before(ss, y, p) && child_has(ss, y, y));
-                    lemma_search_char(ss, i, p, y);
-                    lemma_concat_contains(x1, bs, y);
-                }
-            }
-            assert forall|e: ScopeOrDeclId| #[trigger] m_search(ss, i, p).contains(e) implies x2.contains(e) by {
-                lemma_concat_contains(x1, bs, e);
-            }
-            assert(lower_ok(ss, i, ki, p, x2));
+            lemma_lower_next(ss, u, b, p, pos, x, ki);
             lemma_up_ord(ss, i, ki, p, pos, x2);
         } else {
             assert(cs =~= Seq::<ScopeOrDeclId>::empty());
